@@ -82,11 +82,14 @@ class Site(object):
                 r = dict(r, **(k if isinstance(k, dict) else {'kind': k}))
                 k = r['kind']
             if k == 'rules':
-                body = 'User-agent: %s\n' % r.get('agent', '*')
+                # ('sep': what stands between a field name and its value - white space around the colon is legal,
+                # RFC 9309 2.2: rule = *WS ("allow" / "disallow") *WS ":" *WS (path-pattern / empty-pattern) EOL)
+                sep = r.get('sep', ': ')
+                body = 'User-agent%s%s\n' % (sep, r.get('agent', '*'))
                 for p in r.get('disallow', []):
-                    body += 'Disallow: %s\n' % p
+                    body += 'Disallow%s%s\n' % (sep, p)
                 for p in r.get('allow', []):
-                    body += 'Allow: %s\n' % p
+                    body += 'Allow%s%s\n' % (sep, p)
                 body += r.get('extra', '')
                 if r.get('no_newline'):
                     body = body.rstrip('\n')
